@@ -2,7 +2,7 @@
 import json, os, re, shutil, subprocess, sys, tempfile, time, atexit, glob
 
 VERIF = os.path.abspath(os.path.join(os.path.dirname(__file__), '..', '..'))
-REPO = '/repo'
+REPO = os.environ.get('VERIF_REPO', '/repo')   # (development aid; registered commands never set it)
 SPEC = os.path.join(VERIF, 'spec')
 HARNESS = os.path.join(VERIF, 'harness')
 EVID = os.path.join(VERIF, 'evidence')
@@ -41,6 +41,10 @@ class Ctx:
         src = os.path.join(self.work, 'hsrc_race' if race else 'hsrc')
         shutil.copytree(HARNESS, src, ignore=shutil.ignore_patterns('vh', 'vh_*'))
         shutil.copy(os.path.join(REPO, 'go.sum'), os.path.join(src, 'go.sum'))
+        if REPO != '/repo':
+            gm = os.path.join(src, 'go.mod')
+            txt = open(gm).read().replace('=> /repo', '=> ' + REPO)
+            open(gm, 'w').write(txt)
         for tags, hooks in (('verif,verifhooks', True), ('verif', False)):
             cmd = ['go', 'build', '-tags', tags] + (['-race'] if race else []) + ['-o', out, '.']
             p = subprocess.run(cmd, cwd=src, env=self.goenv(), capture_output=True, text=True)
